@@ -19,6 +19,22 @@ class Stall(Exception):
 def cases(rng, tier):
     yield {"continuum": {"a": [[0.0, 1.0, "x"], [1.0, 2.0, "x"]], "b": [[0.0, 50.0, "x"], [0.5, 60.0, "x"]]}, "w": 1, "dissim": ["combined", 1.0, 1.0, 1.0, None]}
     yield {"continuum": {"a": [[0.0, 1.0, "x"], [1.0, 2.0, "x"]], "b": [[0.0, 5.0, "x"], [0.0, 6.0, "x"]]}, "w": 1, "dissim": ["positional", 1.0]}
+    # an annotator with a "background" unit spanning the whole continuum next to short ones: the first window's limit is then the
+    # continuum's end although most units lie outside the window
+    bg = {"A": [[0.0, 1000.0, "a"], [10.0, 20.0, "a"], [30.0, 40.0, "b"], [50.0, 60.0, "a"], [500.0, 520.0, "b"]], "B": [[10.0, 20.0, "a"]]}
+    for w in (1, 2, 3):
+        yield {"continuum": bg, "w": w, "dissim": ["combined", 1.0, 1.0, 1.0, None]}
+    for spec in common.grid_continua(rng, 2, 3, 14, ["a", "b"], allow_empty=False, count=4 if tier == "quick" else 24):
+        ends = [u[1] for v in spec.values() for u in v]
+        starts = [u[0] for v in spec.values() for u in v]
+        if not ends:
+            continue
+        spec = {a: [list(u) for u in v] for a, v in spec.items()}
+        first = sorted(spec)[0]
+        spec[first] = [[min(starts), max(ends), "a"]] + [u for u in spec[first] if not (u[0] == min(starts) and u[1] == max(ends))]
+        tot = sum(len(v) for v in spec.values())
+        for w in range(1, -(-tot // 2) + 2):
+            yield {"continuum": spec, "w": w, "dissim": DISSIMS[w % len(DISSIMS)]}
     k = 0
     for n, mx, cnt in ((2, 4, 12), (3, 3, 8), (4, 2, 4)):
         for spec in common.grid_continua(rng, n, mx, 14, ["a", "b"], allow_empty=True, count=cnt if tier == "quick" else cnt * 6):
